@@ -64,11 +64,16 @@ def run(ctx):
             if not r.get("equal"):
                 ctx.violation("C01:tree-differs:" + c["transport"] + (":resumed" if c.get("prior") else ""),
                               f"both endpoints reported success but the output tree differs: {r.get('diff')}", {"case": G.strip(c), "result": r})
+    bigs = G.big_cases(rng, ctx.tier == "thorough")
+    rcb, bres = G.run_xfer(ctx, exe, "big", bigs, timeout=600)
+    ctx.oblige("harness:big", rcb == 0 and len(bres) == len(bigs), ctx.harness_stderr[-300:])
+    nbig = G.judge_big(ctx, "C01", bigs, bres)
     ctx.coverage.update({
-        "evaluations": len(cases), "distinct_nontrivial": nontrivial,
+        "big_sparse_files_above_4GiB": nbig,
+        "evaluations": len(cases) + len(bigs), "distinct_nontrivial": nontrivial + nbig,
         "rule": "trees: 0-12 files with sizes at k*chunk-1,k*chunk,k*chunk+1 and 0, nesting 0-2, empty directories, every 7th with odd legal names (a..b, spaces, backslash, unicode, 200-byte names); "
                 "chunk in {1,7,64,4096,1MiB}; streams {1,2,3,4,8}; connections {1,2,4}; transports netsim (lazy stream visibility), netsim-eager, repo mock, real loopback QUIC; both root modes; "
-                "Scan and ScanPaths; resume off / on / on with a partial prior state (incl. damaged highest chunk). non-trivial = runs with at least one file in which both endpoints returned nil",
+                "Scan and ScanPaths; resume off / on / on with a partial prior state (incl. damaged highest chunk); sparse files of 4-12 GiB resumed so that only chunks beyond 2^32 bytes travel. non-trivial = runs with at least one file in which both endpoints returned nil",
         "samples": [json.dumps(G.strip(cases[1]))[:300], json.dumps(G.strip(cases[-1]))[:300]],
         "both_ok": both_ok, "distribution": dist,
     })
